@@ -199,6 +199,9 @@ func checkPmt(c *vrun.Ctx, rng *rand.Rand, pool []*wire.MsgTx, cs, ex tla.Value,
 		}
 	}
 	wantMatched := ex.F("matched").Ints()
+	if corrupt("pmt-expect") && n == 5 && len(M) == 2 {
+		wantFlags[0] ^= 1 // self-test: a corrupted expectation must be noticed
+	}
 	replay := map[string]any{"n": n, "matched": M, "spec_bits": ex.F("bits").Ints(), "spec_flags": fmt.Sprintf("%x", wantFlags),
 		"spec_hash_terms": clip(ex.F("hashes").String(), 600)}
 	var txhex []string
@@ -265,6 +268,26 @@ func checkPmt(c *vrun.Ctx, rng *rand.Rand, pool []*wire.MsgTx, cs, ex tla.Value,
 	if err := mb.BtcEncode(&buf, wire.ProtocolVersion, wire.BaseEncoding); err != nil {
 		c.Violation("pmt:wire-encode", fmt.Sprintf("MsgMerkleBlock.BtcEncode fails: %v", err), replay)
 		return nil
+	}
+	// the bytes on the wire are the specification's message layout
+	var wantWire []byte
+	for _, tok := range ex.F("wire").Seq() {
+		switch {
+		case tok.Kind == tla.KInt:
+			wantWire = append(wantWire, byte(tok.I))
+		case tok.Elems[0].Str() == "hdr":
+			var hb bytes.Buffer
+			hdr.Serialize(&hb)
+			wantWire = append(wantWire, hb.Bytes()...)
+		case tok.Elems[0].Str() == "hash":
+			wantWire = append(wantWire, wantHashes[tok.Elems[1].Int()-1][:]...)
+		}
+	}
+	c.AddEval(1)
+	if !bytes.Equal(buf.Bytes(), wantWire) {
+		replay["got_wire"] = fmt.Sprintf("%x", buf.Bytes())
+		replay["spec_wire"] = fmt.Sprintf("%x", wantWire)
+		c.Violation("pmt:wire-layout", fmt.Sprintf("the encoded merkleblock message (%d bytes) is not header, count, hashes, flags as the specification lays them out (%d bytes)", buf.Len(), len(wantWire)), replay)
 	}
 	var rx wire.MsgMerkleBlock
 	if err := rx.BtcDecode(bytes.NewReader(buf.Bytes()), wire.ProtocolVersion, wire.BaseEncoding); err != nil {
